@@ -155,11 +155,19 @@ def run(res, tier):
            how='RemoveIndexEntry(key) at line %s precedes the drop on every non-null path' % (rie_ok[0].get('l') if rie_ok else '?'), key='CHILD-LINK|%s|RemoveIndexEntry' % f.q,
            message='DataNode::RemoveChild can drop a child while its entry stays in the ordered index: the index then lists a node that no longer exists')
     f = fx.fn1('muscle::DataNode::InsertIndexEntryAt')
-    ins = [c for c in f.walk() if c['k'] == 'CXXMemberCallExpr' and index_receiver(c) and (c.get('q') or '').endswith('::InsertItemAt')]
+    from msa import ip as IP
+    # the insertion itself may sit in a private member the function was split into (msa/ip.py): the inserted item is then looked up at the call site
+    ins = [(g_, c) for g_ in IP.scope(fx, f, r'^muscle::DataNode::') for c in g_.walk() if c['k'] == 'CXXMemberCallExpr' and index_receiver(c) and (c.get('q') or '').endswith('::InsertItemAt')]
     ok = False
     how = None
-    for c in ins:
+    for (g_, c) in ins:
         item = A.strip_casts(c.args()[1]) if len(c.args()) > 1 else None
+        if item is not None and g_ is not f:
+            (h_, item) = IP.resolve_arg(fx, g_, item, r'^muscle::DataNode::')
+            item = A.strip_casts(item)
+            c = next((cc for cc in f.walk() if cc.is_call() and IP.helper_of(fx, cc, r'^muscle::DataNode::') is g_), c) if h_ is f else c
+            if h_ is not f:
+                continue
         if item is not None and item['k'] == 'DeclRefExpr' and 'd' in item:
             gets = [g for g in P.calls(f, r'^muscle::Hashtable(Base|Mid)?::Get$') if any(x.get('n') == '_children' for x in g.walk())
                     and any(A.strip_casts(a).get('d') == item['d'] for a in g.args())]
@@ -334,6 +342,9 @@ def round3_rules(res, fx):
     res.rule('ENTRY-ONCE', 'every statement that adds an entry to an ordered index (Queue insertion into _orderedIndex; a call of DataNode::InsertIndexEntryAt, whose documented precondition is that the child '
                            'is not in the index) adds a node created in the same function, or is preceded on every path by RemoveIndexEntry() for that child on the same node (or by a test of the index for it)', floor=3)
     n_eo = 0
+    from msa import ip as IP_eo
+    prim_scope = set(h_.id for pf in fx.funcs.values() if pf.full and pf.q.endswith('DataNode::InsertIndexEntryAt') for h_ in IP_eo.scope(fx, pf, r'^muscle::DataNode::', single_caller=True)) | \
+        set(pf.id for pf in fx.funcs.values() if pf.full and pf.q.endswith('DataNode::InsertIndexEntryAt'))
     for g in sorted((g for g in fx.funcs.values() if g.full and re.search(r'^muscle::(DataNode|StorageReflectSession)::', g.q)), key=lambda g: (g.file, g.line)):
         for c in g.walk():
             if not c.is_call():
@@ -344,8 +355,8 @@ def round3_rules(res, fx):
             api = qn.endswith('DataNode::InsertIndexEntryAt')
             if not (prim or api):
                 continue
-            if prim and g.q.endswith('DataNode::InsertIndexEntryAt'):
-                continue          # the primitive behind the public call: its callers carry the obligation (they are the `api` sites)
+            if prim and g.id in prim_scope:
+                continue          # the primitive behind the public call (or a private member it was split into): its callers carry the obligation (they are the `api` sites)
             n_eo += 1
             recv = c.receiver() if api else None
             rk = A.render_key(A.strip_casts(recv)) if recv is not None else 'this'
